@@ -144,6 +144,12 @@ def handle : Handler := fun op inp =>
       return match inferLevels (lookup3 tbl) hier cell with
         | .ok c => jObj [("ok", jList (jPair jNat jOutRec) c)]
         | .error _ => jObj [("err", jStr "keyError")]
+  | "election.assemble" => some do
+      let kids ← natList (← field inp "kids")
+      let tbl ← asList (asPair asNat natList) (← field inp "leaves")
+      let leavesOf := fun c => ((tbl.find? (fun e => e.1 == c)).map (·.2)).getD []
+      let (rows, types) := assembleRows kids leavesOf
+      return jObj [("rows", jNats rows), ("types", jNats types)]
   | "election.cpm" => some do
       let xs ← ratList (← field inp "row")
       return jRats (cpm xs)
